@@ -88,7 +88,7 @@ def _run_chunk(prop_id, verif_seed, idxs, tier, want_samples):
                        steps=res.get("steps", 0), skipped=res.get("skipped", 0))
             if res["violations"]:
                 rec["violations"] = res["violations"]
-                rec["trace"] = trace
+                rec["trace"] = res.get("explicit") or trace
             elif i in want_samples:
                 rec["sample"] = mod.sample_view(trace, res) if hasattr(mod, "sample_view") else trace
         except base.HarnessError as e:
